@@ -42,7 +42,7 @@ inductive Proj | whole | idx (i : Nat)
 
 structure StepCode where
   k : Nat
-  tbs : List Nat                   -- let __j{b} = __tb({b}usize);
+  tbs : List (Nat × Nat)           -- (b, arg): let __j{b} = __tb({arg}usize);
   defs : List CapDef               -- let __ew.. = {..};
   form : JoinForm
   elems : List Elem
@@ -79,6 +79,8 @@ inductive Handle
 
 structure Code where
   kind : Kind
+  /-- user-given `let` names of the branches, in branch order (`none`: unnamed branch) -/
+  userNames : List (Option String)
   fcp : Option Toks
   handlerDef : Option Toks
   steps : Steps
